@@ -57,8 +57,9 @@ Proof. exact message_witness_ok. Qed.
 Theorem C15_validator : forall t, utf8 t = true -> exists r, validator_b t = Ok r.
 Proof. intros t H. apply safe_ok, validator_safe. apply utf8_wf, H. Qed.
 
-(* parse_rename (repaired: restart just after the matched _all): never panics; the former
-   counterexample (rename, two ideographic spaces, _all inside a literal) is skipped *)
+(* parse_rename / parse_rename_all (repaired twice; now one whole-key scanner find_key + written_value with
+   the parenthesised serialize form): no slice offset is off a char boundary, the scan ends within length+1
+   rounds; the former counterexample (rename, two ideographic spaces, _all inside a literal) yields no rename *)
 Theorem C15_parse_rename : forall t, utf8 t = true -> rename_b t <> Panic.
 Proof. intros t H. apply safe_not_panic, rename_safe, utf8_wf, H. Qed.
 Theorem C15_rename_witness :
@@ -96,7 +97,7 @@ Proof. intros s H. apply utf8_wf in H. repeat split.
   - apply safe_not_panic, parse_type_structure_safe, H.
   - apply safe_not_panic, names_safe, H.
   - apply safe_not_panic, prefix_safe.
-  - apply rename_nf. Qed.
+  - apply rename_nf, H. Qed.
 
 (* the depth counter of find_top_level_comma is an i32: run with overflow checks (Panic when the range
    is left) the scan equals the model with an unbounded depth for every input of at most 2^31 - 1 bytes;
@@ -164,12 +165,16 @@ Example C15_ex_validator :
                         va_length := Some {| v_min := Some (L "1"); v_max := None; v_msg := Some (ex_bytes [195; 169; 97]) |};
                         va_range := None |}.
 Proof. vm_compute. auto. Qed.
-(* rename_all is skipped by the loop, then a rename with a multi-byte value is found *)
+(* rename inside rename_all is not a whole key; the later rename with a multi-byte value is found; the
+   parenthesised form takes the serialize entry, and deserialize alone renames nothing *)
 Example C15_ex_serde :
   let t := L "rename_all = ""camelCase"" , rename = ""x" ++ ex_bytes [195; 169] ++ L """" in
   utf8 t = true /\
-  serde_b t = Ok {| sa_rename := Some (L "x" ++ ex_bytes [195; 169]); sa_skip := false; sa_rename_all := Some (L "camelCase") |}.
-Proof. vm_compute. auto. Qed.
+  serde_b t = Ok {| sa_rename := Some (L "x" ++ ex_bytes [195; 169]); sa_skip := false; sa_rename_all := Some (L "camelCase") |} /\
+  rename_b (L "rename (deserialize = ""d"" , serialize = ""s"")") = Ok (Some (L "s")) /\
+  rename_b (L "rename (deserialize = ""d"")") = Ok None /\
+  rename_b (L "y = ""renamea_all = \""w\""""") = Ok None.
+Proof. vm_compute. auto 6. Qed.
 Example C15_ex_naming :
   let n := L "user_" ++ ex_bytes [195; 169] ++ L "_id" in
   utf8 n = true /\ naming_b RCamel n = Ok (L "user" ++ ex_bytes [195; 169] ++ L "Id") /\
